@@ -25,3 +25,41 @@ Theorem name_match_case_insensitive_refuted :
       <> name_match_spec descs name.
 Proof. exact case_insensitive_refuted. Qed.
 Print Assumptions name_match_case_insensitive_refuted.
+
+(* ---- "… and the statically resolved matches in Promela and VHDL output all implement this same relation" ----
+   The Promela and VHDL back-ends resolve event descriptors at transformation time through the event-name trie
+   (Trie.v, tied to the code by its own correspondence, vd_trie.cpp).  The three theorems below are the ones stated in
+   Properties_C06.v, repeated here because they are C12's last clause. *)
+From V Require Import Trie TrieLemmas.
+
+(* U (any set of names, any prefix): getWordsWithPrefix over the '.'-separated trie returns exactly the inserted names
+   whose token list extends the prefix's *)
+Theorem trie_resolution_correct : forall ws d x,
+  (forall w, In w ws -> canonical_name w = true) ->
+  (In x (words_with_prefix (trie_of ws) d) <-> In x ws /\ list_prefixb (dot_tokens d) (dot_tokens x) = true).
+Proof. exact words_with_prefix_spec. Qed.
+Print Assumptions trie_resolution_correct.
+
+(* U: on canonically spelled names "token prefix" is the Recommendation's descriptor matching *)
+Theorem trie_token_prefix_is_descriptor_match : forall d w,
+  canonical_name d = true -> canonical_name w = true ->
+  list_prefixb (dot_tokens d) (dot_tokens w) = (beq_bytes d w || is_prefix (d ++ [c_dot]) w).
+Proof. exact token_prefix_matches. Qed.
+Print Assumptions trie_token_prefix_is_descriptor_match.
+
+(* U: the literals OR-ed into a transition's guard by the Promela and the VHDL back-end are exactly the event names
+   name_match_spec matches (for resolvable descriptors, a boolean the check evaluates on every generated descriptor) *)
+Theorem trie_guard_literals_correct : forall v ws attr name,
+  (forall w, In w ws -> canonical_name w = true) -> In name ws ->
+  forallb resolvable_desc (tokens attr) = true ->
+  resolved_match (resolve_attr v (trie_of ws) attr) name = name_match_spec attr name.
+Proof. exact resolve_attr_correct. Qed.
+Print Assumptions trie_guard_literals_correct.
+
+(* the restriction is needed: a "*" among several descriptors is looked up as a name by the code as written *)
+Theorem trie_star_in_list_refuted :
+  exists ws attr name,
+    (forall w, In w ws -> canonical_name w = true) /\ In name ws /\ wf_descs attr = true /\
+    resolved_match (resolve_attr tv_as_written (trie_of ws) attr) name <> name_match_spec attr name.
+Proof. exact star_in_list_refuted. Qed.
+Print Assumptions trie_star_in_list_refuted.
